@@ -1,6 +1,7 @@
 package main
 
 import (
+	"golang.org/x/tools/go/ssa"
 	"flag"
 	"fmt"
 	"os"
@@ -91,6 +92,7 @@ func main() {
 			os.Exit(2)
 		}
 		c := newCtx(id, *tier, prog)
+		prog.rootsUsed = map[*ssa.Function]bool{}
 		c.Count("packages", len(prog.Pkgs))
 		c.Count("source_functions", len(prog.SrcFuncs))
 		func() {
@@ -105,6 +107,10 @@ func main() {
 				}
 			}()
 			f(c)
+			if *tier == "thorough" {
+				checkResolverCompleteness(c)
+				if os.Getenv("HK_NO_AUDIT") == "" { runChangeAudit(c, *verif, *repo) }
+			}
 		}()
 		if *list {
 			for _, o := range c.Obs {
